@@ -292,3 +292,18 @@ func vpH_SELF_ifconv() {
 	vpObserve("x", x)
 	vpObserve("max", m)
 }
+
+//vp:prop SELF
+func vpH_SELF_strings2() {
+	a := vpU8("a")
+	s := " 11.22:60\n" + string([]byte{'0' + a%10})
+	c := strings.ReplaceAll(strings.ReplaceAll(s, " ", ""), "\n", "")
+	vpObserve("len", uint64(len(c)))
+	vpObserve("first", uint64(c[0]))
+	parts := strings.Split(c, ":")
+	vpObserve("parts", uint64(len(parts)))
+	vpObserve("hasSuffix", uint64(len(strings.TrimSuffix(c, "0"))))
+	if strings.HasPrefix(c, "11.") && strings.Contains(c, ":6") {
+		vpReach("ok")
+	}
+}
